@@ -387,6 +387,33 @@ fn main() {
         s5
     }).reduce(Stats::default, Stats::merge);
     s5 = s5.merge(s5p);
+    // the same pipe with a slow producer: the emitted document reaches the second zerv after a silence (1.6 s, 4 s), in 7-byte pieces,
+    // or as one byte followed by a long pause - what a loaded machine or a large repository does to `zerv version ... | zerv version
+    // --source stdin`. The rendering must equal the direct one whatever the timing of the delivery.
+    {
+        use proc::Delivery; let ms = std::time::Duration::from_millis;
+        let deliveries: [(&str, Delivery); 4] = [("silent 1.6 s", Delivery { first_delay: ms(1600), ..Default::default() }), ("silent 4 s", Delivery { first_delay: ms(4000), ..Default::default() }), ("7-byte pieces 5 ms apart", Delivery { chunk: 7, gap: ms(5), ..Default::default() }), ("one byte, 2.5 s, the rest", Delivery { head: 1, head_gap: ms(2500), ..Default::default() })];
+        let picked: Vec<&(&str, Vec<String>, Option<String>)> = slice.iter().step_by((slice.len() / 6).max(1)).take(6).cloned().collect();
+        let work: Vec<(usize, usize)> = (0..picked.len()).flat_map(|j| (0..deliveries.len()).map(move |d| (j, d))).collect();
+        let pool = rayon::ThreadPoolBuilder::new().num_threads(work.len().clamp(1, 64)).build().unwrap_or_else(|e| machinery_error(&format!("thread pool: {e}")));
+        let sd = pool.install(|| work.par_iter().map(|&(j, di)| {
+            let mut st = Stats::default();
+            let (cmd, args, stdin) = picked[j];
+            let mut first = vec![cmd.to_string()]; first.extend(args.iter().cloned());
+            let mut tz = first.clone(); tz.extend(a(&["--output-format", "zerv"]));
+            let o1 = zv::run_bin(&tz, stdin.as_deref(), &[], None);
+            if o1.status != 0 { return st; }
+            let o = a(&["--output-format", "semver"]);
+            let mut pa = a(&["version", "--source", "stdin"]); pa.extend(o.iter().cloned());
+            let o2 = zv::run_bin_delivery(&pa, Some(&o1.stdout_str()), &[], None, &deliveries[di].1);
+            let mut dr = first.clone(); dr.extend(o.iter().cloned());
+            let o3 = zv::run_bin(&dr, stdin.as_deref(), &[], None);
+            st.inc("process_conformance_cases"); st.inc("slow_producer_pipe_cases");
+            if o2.stdout != o3.stdout || o2.status != o3.status { ctx.violation("binary_pipe_differs", format!("{} {} [document delivered: {}]", first.join(" "), o.join(" "), deliveries[di].0), json!({"kind":"proc-delivery"}), format!("piped exit {} {:?} {:?}; direct {:?}", o2.status, o2.stdout_str(), truncate(&o2.stderr_str(), 160), o3.stdout_str())); }
+            st
+        }).reduce(Stats::default, Stats::merge));
+        s5 = s5.merge(sd);
+    }
     // large documents through the real pipe (the in-process driver hands stdin over as a string and would not see a bounded
     // reader): custom arrays of 1 000 / 30 000 elements under 10 levels of nesting emit 50 KB / 1.5 MB of pretty RON
     for n in [1000usize, 30000, 60000] {
